@@ -437,6 +437,42 @@ def apply_doctype(data, mut):
     return b'<?xml version="1.0" encoding="UTF-8"?>' + decl + body
 
 
+ENCODINGS = ['utf-16', 'utf-16-le', 'utf-16-be', 'utf-8-sig', 'iso-8859-1', 'utf-32', 'utf-8-declared-utf-16', 'us-ascii', 'utf-7', 'cp037']
+
+
+def encoding_cases(data):
+    """The request (plain, and with an internal entity referenced from an attribute) in other character encodings."""
+    out = [('encoding', e, None) for e in ENCODINGS]
+    root = etree.fromstring(data)
+    attrs = [(i, a) for i, e in enumerate(_elements(root)) for a in sorted(e.attrib)]
+    first = attrs[0] if attrs else None
+    for e in ENCODINGS:
+        for name in ('internal-entity', 'nested-entities', 'external-file-entity', 'doctype-only'):
+            out.append(('encoding', e, name) + ((first[0], first[1]) if first and DOCTYPES[name][1].startswith(b'&') else (None, None)))
+    return out
+
+
+def apply_encoding(data, mut):
+    enc, name = mut[1], mut[2]
+    body = data
+    if name is not None:
+        idx, attr = mut[3], mut[4]
+        body = apply_doctype(data, ('doctype', name, idx, attr))
+    text = body.decode('utf-8')
+    text = re.sub(r'^<\?xml[^>]*\?>', '', text).lstrip()
+    if enc == 'utf-8-declared-utf-16':
+        return ('<?xml version="1.0" encoding="utf-16"?>' + text).encode('utf-8')
+    decl_name = {'utf-16-le': 'utf-16', 'utf-16-be': 'utf-16', 'utf-8-sig': 'utf-8'}.get(enc, enc)
+    payload = ('<?xml version="1.0" encoding="%s"?>' % decl_name) + text
+    try:
+        raw = payload.encode(enc)
+    except UnicodeEncodeError:
+        raw = payload.encode(enc, 'xmlcharrefreplace')
+    if enc in ('utf-16-le', 'utf-16-be'):
+        raw = (b'\xff\xfe' if enc == 'utf-16-le' else b'\xfe\xff') + raw
+    return raw
+
+
 def truncations(data):
     cuts = sorted({m.end() for m in re.finditer(rb'>', data)} | {m.start() + 1 for m in re.finditer(rb'<', data)})
     return [('trunc', c) for c in cuts if c < len(data)]
@@ -622,6 +658,8 @@ def materialise(corpus, case):
         return mk_http('POST', corpus[mut[1]]['path'], data)
     if kind == 'doctype':
         return mk_http('POST', path, apply_doctype(data, mut))
+    if kind == 'encoding':
+        return mk_http('POST', path, apply_encoding(data, mut))
     if kind == 'trunc':
         return mk_http('POST', path, data[:mut[1]])
     if kind == 'raw':
@@ -888,6 +926,8 @@ def mut_class(case):
         return f'{kind}:{mut[1] if kind != "rename" else mut[2]}'
     if kind == 'doctype':
         return f'doctype:{mut[1]}'
+    if kind == 'encoding':
+        return f'encoding:{mut[1]}{"+" + mut[2] if mut[2] else ""}'
     if kind in ('raw', 'wire'):
         return kind
     return kind
@@ -932,6 +972,7 @@ def all_cases(quick):
         cases.append({'req': k, 'mut': ('none',)})
         cases += [{'req': k, 'mut': m} for m in xml_mutations(data)]
         cases += [{'req': k, 'mut': m} for m in doctype_cases(data)]
+        cases += [{'req': k, 'mut': m} for m in encoding_cases(data)]
         tr = truncations(data)
         cases += [{'req': k, 'mut': m} for m in (tr[::4] if quick else tr)]
         cases += [{'req': k, 'mut': ('action', o)} for o in keys if o != k]
